@@ -6,6 +6,7 @@ import (
 	"fmt"
 	"mime/multipart"
 	"net/http"
+	"strconv"
 	"strings"
 	"time"
 
@@ -29,7 +30,28 @@ type PathPlan struct {
 	Magnet bool     `json:"magnet,omitempty"`
 }
 
-func RunPaths(env *Env, plan *PathPlan) {
+// The plan keeps hostile strings Go-quoted in ASCII (JSON cannot carry invalid UTF-8 or NUL
+// unchanged, and a replay must use the very same bytes).
+func uq(s string) string {
+	v, err := strconv.Unquote(s)
+	if err != nil {
+		return s
+	}
+	return v
+}
+
+func RunPaths(env *Env, qplan *PathPlan) {
+	plan := &PathPlan{K: qplan.K, Single: qplan.Single, Name: uq(qplan.Name), Magnet: qplan.Magnet}
+	for _, p := range qplan.Paths {
+		var pc []string
+		for _, c := range p {
+			pc = append(pc, uq(c))
+		}
+		plan.Paths = append(plan.Paths, pc)
+	}
+	for _, t := range qplan.Tar {
+		plan.Tar = append(plan.Tar, uq(t))
+	}
 	host := env.NewHost("sut", "sut")
 	fs := simfs.New("sut", env.R.Uint64())
 	// something the attacker would like to reach
@@ -197,21 +219,22 @@ func b64(b []byte) string {
 func init() {
 	comps := []string{"..", ".", "", "a", "b", "a/b", "/abs", "../x", "..\\x", "x\x00y", strings.Repeat("L", 300), "\xff\xfe", " ", "...", "a/../../../etc/passwd", "../other/secret.bin", "..a", "a..", "~", "-rf", "con", "a\\..\\b"}
 	Register(&Scenario{Name: "paths", Gen: func(r *simrt.Rand, tier string, p *Plan) {
-		pp := &PathPlan{Single: r.Chance(0.3), Name: simrt.Pick(r, append([]string{"ok", "ok", "dir"}, comps...))}
+		q := strconv.QuoteToASCII
+		pp := &PathPlan{Single: r.Chance(0.3), Name: q(simrt.Pick(r, append([]string{"ok", "ok", "dir"}, comps...)))}
 		pp.K.DataDirNoID = r.Chance(0.4)
 		pp.K.TrackerStopTimeout = time.Second
 		if !pp.Single {
 			for i := 0; i < r.Range(1, 4); i++ {
 				var pc []string
 				for j := 0; j < r.Range(1, 3); j++ {
-					pc = append(pc, simrt.Pick(r, append([]string{"f", "g", "sub"}, comps...)))
+					pc = append(pc, q(simrt.Pick(r, append([]string{"f", "g", "sub"}, comps...))))
 				}
 				pp.Paths = append(pp.Paths, pc)
 			}
 		}
 		if r.Chance(0.4) {
 			for i := 0; i < r.Range(1, 3); i++ {
-				pp.Tar = append(pp.Tar, simrt.Pick(r, []string{"moved", "../escape", "/abs/escape", "a/../../escape2", "..", "./ok", "sub/ok", "../mv2/x", "..\\w", "a/./b", "../../etc/passwd", strings.Repeat("d/", 40) + "deep"}))
+				pp.Tar = append(pp.Tar, q(simrt.Pick(r, []string{"moved", "../escape", "/abs/escape", "a/../../escape2", "..", "./ok", "sub/ok", "../mv2/x", "..\\w", "a/./b", "../../etc/passwd", strings.Repeat("d/", 40) + "deep"})))
 			}
 		}
 		p.Paths = pp
